@@ -408,6 +408,7 @@ class Ctx:
     def finish(self, level="proof", explanation=None, extra_cov=None):
         wall = time.time() - self.t0
         known_lines, viol_lines = [], []
+        known_examples = []
         nviol = 0
         # 1. concrete violations
         concrete = []
@@ -417,6 +418,7 @@ class Ctx:
                 line = "KNOWN-FINDING: property=%s %s" % (self.prop, k.get("what", v["what"]))
                 if line not in known_lines:
                     known_lines.append(line)
+                    known_examples.append({"finding": k.get("what", "")[:120], "observed": v["what"][:300], "replay": v["replay"]})
             else:
                 concrete.append(v)
         # 2. broken obligations / correspondences
@@ -455,6 +457,7 @@ class Ctx:
             "correspondence": self.corr,
             "broken": [b["name"] for b in self.broken],
             "known_findings_seen": known_lines,
+            "known_findings_examples": known_examples,
         }
         cov.update(self.cov)
         if extra_cov:
